@@ -1047,16 +1047,18 @@ func (p qProgram) file(pkg string) string {
 
 // stressProgram: functions that exceed the encoding limits of the bytecode (more than 256 constants of each kind;
 // with big = true also a branch over more than 32767 bytes of code).
-func stressProgram(r *rand.Rand, prefix string, big bool) (qProgram, [][]interface{}) {
+func stressProgram(r *rand.Rand, prefix string, big bool, arms int) (qProgram, [][]interface{}) {
 	var sb strings.Builder
-	arms := 258 + r.Intn(60)
+	if arms == 0 {
+		arms = 258 + r.Intn(60)
+	}
 	name := prefix + "pick"
 	sb.WriteString("func " + name + "(i int) string {\n")
 	for k := 0; k < arms; k++ {
 		fmt.Fprintf(&sb, "\tif i == %d {\n\t\treturn \"s%d\"\n\t}\n", k, k)
 	}
 	sb.WriteString("\treturn \"none\"\n}\n")
-	args := [][]interface{}{{0}, {1}, {255}, {256}, {257}, {arms - 1}, {arms}}
+	args := [][]interface{}{{0}, {1}, {253}, {254}, {255}, {256}, {257}, {arms - 2}, {arms - 1}, {arms}}
 	if big {
 		far := prefix + "far"
 		sb.WriteString("\nfunc " + far + "(c bool, x int) int {\n\tif c {\n")
